@@ -494,6 +494,23 @@ pub fn enumerate(max_nary: usize, sink: &mut dyn FnMut(Scenario)) -> u64 {
             }
         }
     }
+    // special pairs: coincidences a random draw practically never produces (sign of zero, exact halves, powers of two,
+    // equal and negated operands) for every two-input arithmetic stream, both present
+    let special = [0.0f32, -0.0, 0.5, -0.5, 1.0, -1.0, 2.0, -2.0, 0.25, 3.0, 1.0e-3, 1.0e4, f32::MIN_POSITIVE, 1.0e-40, 3.0e38, -3.0e38];
+    for &stream in &[SK::Sum2, SK::Product2, SK::Difference, SK::Quotient, SK::Exponent, SK::SumN, SK::ProductN] {
+        for &a in &special {
+            for &b in &special {
+                for quantity in [false, true] {
+                    if quantity && stream == SK::Exponent {
+                        continue;
+                    }
+                    let ins = vec![In { cat: 3, t: 1000, v: a, b: false }, In { cat: 3, t: 1010, v: b, b: false }];
+                    sink(Scenario { stream, ins, quantity, clock_ok: true, clock_t: 0, limit: 50, none_value: -9.5 });
+                    count += 1;
+                }
+            }
+        }
+    }
     count
 }
 
